@@ -8,11 +8,13 @@ package main
 import (
 	"fmt"
 	"sort"
+	"strings"
 )
 
 type qctx struct {
 	memo     map[[2]interface{}]*Term
 	goalIdx  map[*Term]bool // index terms occurring in the goal (preferred instantiation candidates)
+	ufArgs   map[string]map[*Term]bool // ground terms occurring at argument position k of uninterpreted function f, keyed f#k
 }
 
 // goalRank: 0 for candidates that occur as index terms of the goal, 1 otherwise.
@@ -303,6 +305,7 @@ type qpattern struct {
 	arr  *Term // ground array
 	off  *Term // ground offset or nil
 	v    *Term
+	ufKey string // bound variable used directly as argument k of uninterpreted function f (recursive spec functions): "f#k"
 }
 
 func patternsOf(body *Term, vars []*Term) []qpattern {
@@ -336,6 +339,15 @@ func patternsOf(body *Term, vars []*Term) []qpattern {
 				}
 			}
 		}
+		if t.UF != nil && strings.HasPrefix(t.Op, "rec.") {
+			for k, a := range t.Args {
+				if isVar[a] {
+					out = append(out, qpattern{v: a, ufKey: fmt.Sprintf("%s#%d", t.Op, k)})
+				} else if a.Op == "bvadd" && len(a.Args) == 2 && isVar[a.Args[0]] && !hasBound(a.Args[1]) {
+					out = append(out, qpattern{v: a.Args[0], off: a.Args[1], ufKey: fmt.Sprintf("%s#%d", t.Op, k)})
+				}
+			}
+		}
 		for _, a := range t.Args {
 			rec(a)
 		}
@@ -344,6 +356,41 @@ func patternsOf(body *Term, vars []*Term) []qpattern {
 		}
 	}
 	rec(body)
+	return out
+}
+
+// collectGroundUFArgs: the ground arguments of recursive-specification-function applications, per function and position.
+func collectGroundUFArgs(roots []*Term) map[string]map[*Term]bool {
+	seen := map[*Term]bool{}
+	out := map[string]map[*Term]bool{}
+	var rec func(t *Term)
+	rec = func(t *Term) {
+		if seen[t] || t.Lit {
+			return
+		}
+		seen[t] = true
+		if t.Def != nil {
+			rec(t.Def)
+			return
+		}
+		if t.UF != nil && strings.HasPrefix(t.Op, "rec.") {
+			for k, a := range t.Args {
+				if !hasBound(a) && a.S.K == KBV {
+					key := fmt.Sprintf("%s#%d", t.Op, k)
+					if out[key] == nil {
+						out[key] = map[*Term]bool{}
+					}
+					out[key][a] = true
+				}
+			}
+		}
+		for _, a := range t.Args {
+			rec(a)
+		}
+	}
+	for _, r := range roots {
+		rec(r)
+	}
 	return out
 }
 
@@ -458,6 +505,12 @@ func (q *qctx) instantiate(t *Term, goalCtx bool, uses []indexUse, extra map[*So
 				related := map[*Term]bool{}
 				for _, p := range pats {
 					if p.v != v {
+						continue
+					}
+					if p.ufKey != "" {
+						for g := range q.ufArgs[p.ufKey] {
+							exact[minusOff(g, p.off)] = true
+						}
 						continue
 					}
 					for _, u := range uses {
@@ -635,6 +688,7 @@ func prepareVCq(assumes []*Term, goal *Term) ([]*Term, *Term) {
 	for round := 0; round < 3; round++ {
 		roots := append(append([]*Term{}, as...), g)
 		uses := collectGroundSelects(roots)
+		q.ufArgs = collectGroundUFArgs(roots)
 		if len(uses) == nuses {
 			break
 		}
